@@ -438,4 +438,62 @@ theorem vt100_left_text (arg : BitVec 32) (m : List Byte)
               (canonInt false 10 arg.toInt).length + 3) :=
   vt100Left_spec arg m hm
 
+/-! ## G. what was false on the unchanged tree (witnesses on models of the ORIGINAL code)
+
+  Every full statement above holds for the code after the `fix:` commits of branch fix-C07.
+  The theorems below document, on transcriptions of the original routines (Lemmas.lean,
+  "historical"), the inputs on which the statements of section C failed; each was first
+  reported by the correspondence oracle (corpus/C07/01-defects-found.ops). -/
+
+/-- `*end = buf - 1`: "123x" in base 10 reported the '3' (offset 2), not the 'x' (offset 3);
+    the empty number reported offset -1, one byte before the string -/
+theorem atouOrig_end_witness :
+    atou32OrigLoop 10 [0x31#8, 0x32#8, 0x33#8, 0x78#8, 0#8] 0 0 = some (123, 2) ∧
+    atou32OrigLoop 10 [0#8] 0 0 = some (0, -1) := by decide
+
+/-- any hex digit was accepted in any base: "12ab" in base 10 gave 1663 -/
+theorem atouOrig_hex_in_base10_witness :
+    atou32OrigLoop 10 [0x31#8, 0x32#8, 0x61#8, 0x62#8, 0#8] 0 0 = some (1663, 3) := by decide
+
+/-- `hex2half('f') = 47`: the text igris_i64toa(255, 16) = "ff" parsed back as 799 -/
+theorem atouOrig_lowercase_witness :
+    atou32OrigLoop 16 [0x66#8, 0x66#8, 0#8] 0 0 = some (799, 1) ∧ hex2halfOrig 0x61#8 = 42#8 := by decide
+
+/-- letters above 'f' were not digits: base-36 "Z" parsed as 0 -/
+theorem atouOrig_base36_witness : atou32OrigLoop 36 [0x5A#8, 0#8] 0 0 = some (0, -1) := by decide
+
+/-- the repaired parser on the same inputs -/
+theorem atou_repaired_on_witnesses :
+    atou32 [0x31#8, 0x32#8, 0x33#8, 0x78#8, 0#8] 0 10#8 = some (123#32, 3) ∧
+    atou32 [0#8] 0 10#8 = some (0#32, 0) ∧
+    atou32 [0x31#8, 0x32#8, 0x61#8, 0x62#8, 0#8] 0 10#8 = some (12#32, 2) ∧
+    atou32 [0x66#8, 0x66#8, 0#8] 0 16#8 = some (255#32, 2) ∧
+    atou32 [0x5A#8, 0#8] 0 36#8 = some (35#32, 1) := by decide
+
+/-
+  FULL STATEMENT for atol on the tree of branch fix-C07 alone (atol.c unrepaired there):
+      ∀ v : long, atolOrig (text of v ++ NUL) = some v
+  is FALSE for v = LONG_MIN: the positive accumulator overflows (undefined behaviour).
+  atol.c belongs to C11, which repairs it on branch fix-C11; `atol_ltoa_inverse` above is
+  the full statement for that repaired code.  Recorded finding: C07-atol-longmin (probes
+  `@F:C07-atol-longmin`); every other value is in the compared stream.
+-/
+theorem atolOrig_ltoa_inverse_partial (v : BitVec 64) (hv : v ≠ BitVec.ofInt 64 (-9223372036854775808))
+    (tail : List Byte) : atolOrig (canonInt false 10 v.toInt ++ 0#8 :: tail) = some v := by
+  have h1 := @BitVec.toInt_lt 64 v
+  have h2 := BitVec.le_toInt v
+  have hne : v.toInt ≠ -9223372036854775808 := fun h => hv (by rw [← h, BitVec.ofInt_toInt])
+  simp at h1 h2
+  rw [atolOrig_spec v.toInt (by omega) (by omega), BitVec.ofInt_toInt]
+
+-- the excluded value is the only one excluded; the hypothesis is satisfiable
+example : (0#64 : BitVec 64) ≠ BitVec.ofInt 64 (-9223372036854775808) := by decide
+
+theorem atolOrig_longmin_witness :
+    atolOrig [0x2D#8, 0x39#8, 0x32#8, 0x32#8, 0x33#8, 0x33#8, 0x37#8, 0x32#8, 0x30#8, 0x33#8, 0x36#8, 0x38#8,
+              0x35#8, 0x34#8, 0x37#8, 0x37#8, 0x35#8, 0x38#8, 0x30#8, 0x38#8, 0#8] = none ∧
+    atol [0x2D#8, 0x39#8, 0x32#8, 0x32#8, 0x33#8, 0x33#8, 0x37#8, 0x32#8, 0x30#8, 0x33#8, 0x36#8, 0x38#8,
+          0x35#8, 0x34#8, 0x37#8, 0x37#8, 0x35#8, 0x38#8, 0x30#8, 0x38#8, 0#8] = some (BitVec.ofInt 64 (-9223372036854775808)) := by
+  decide
+
 end Igris.C07
